@@ -42,6 +42,8 @@ T = namedtuple('T', 'items')
 R = namedtuple('R', 'v')
 F = namedtuple('F', 'deff res ga')
 C = namedtuple('C', 'deff caps')
+# mutable reference: origin place (frame, local, projs) + current value of the referent
+MR = namedtuple('MR', 'frame loc projs v')
 TOP = U((), None)
 
 STD_VARIANTS = {
@@ -60,7 +62,7 @@ class Undecidable(Exception):
 
 
 def strip(v):
-    while isinstance(v, R):
+    while isinstance(v, (R, MR)):
         v = v.v
     return v
 
@@ -159,7 +161,7 @@ def set_child(v, key, new):
 def read_proj(v, projs):
     for p in projs:
         if p == '*':
-            if isinstance(v, R):
+            if isinstance(v, (R, MR)):
                 v = v.v
             elif isinstance(v, U):
                 v = get_child(v, '*')
@@ -205,6 +207,8 @@ def write_proj(v, projs, new):
     if p == '*':
         if isinstance(v, R):
             return R(write_proj(v.v, rest, new))
+        if isinstance(v, MR):
+            return MR(v.frame, v.loc, v.projs, write_proj(v.v, rest, new))
         if isinstance(v, U):
             return set_child(v, '*', write_proj(get_child(v, '*'), rest, new))
         return TOP
@@ -244,13 +248,16 @@ IDENTITY_CALLS = (
 )
 
 
-class Outcome(namedtuple('Outcome', 'ret events obs')):
+class Outcome(namedtuple('Outcome', 'ret events obs args')):
     pass
+
+
+Outcome.__new__.__defaults__ = ((),)
 
 
 class Explorer:
     def __init__(self, facts, inline_depth=3, budget=200000, no_inline=(), force_domain=None,
-                 observe=(), models=None, loop_visits=2, inline_only=None, watch=(), model_hook=None):
+                 observe=(), models=None, loop_visits=2, inline_only=None, watch=(), model_hook=None, time_budget=60.0):
         self.facts = facts
         self.inline_depth = inline_depth
         self.budget = budget
@@ -263,6 +270,8 @@ class Explorer:
         self.inline_only = inline_only
         self.watch = tuple(watch)
         self.model_hook = model_hook
+        import time as _t
+        self.deadline = _t.time() + time_budget
         self.memo = {}
         self.cut = False
 
@@ -501,6 +510,10 @@ class Explorer:
             self.steps += 1
             if self.steps > self.budget:
                 raise Undecidable('budget exceeded in %s' % rec['d'])
+            if (self.steps & 255) == 0:
+                import time as _t
+                if _t.time() > self.deadline:
+                    raise Undecidable('time budget exceeded in %s' % rec['d'])
             if si == 0:
                 sk = (bb, frozenset(env.items()), events)
                 if sk in seen:
@@ -542,10 +555,21 @@ class Explorer:
                         dsrc.pop(loc, None)
                 else:
                     env[loc] = write_proj(env.get(loc, TOP), projs, val)
+                    if projs[0] == '*' and isinstance(env[loc], MR):
+                        self.sync_mut(env, env[loc], depth)
             if forked:
                 continue
             self.terminator(rec, b['t'], env, events, dsrc, visits, stack, results, depth, names)
         return list(results.keys())
+
+    def sync_mut(self, env, m, depth):
+        """propagate the current value of mutable reference m to its origin (if in this
+        frame) and to every alias of the reference held in this frame"""
+        if m.frame == depth:
+            env[m.loc] = write_proj(env.get(m.loc, TOP), list(m.projs), m.v) if m.projs else m.v
+        for l, v in list(env.items()):
+            if isinstance(v, MR) and v is not m and (v.frame, v.loc, v.projs) == (m.frame, m.loc, m.projs):
+                env[l] = m
 
     def rvalue(self, env, rv, depth, dsrc, dest):
         k = rv[0]
@@ -555,10 +579,17 @@ class Explorer:
             loc, projs = rv[1]
             v = read_proj(env.get(loc, TOP), projs)
             if rv[2]:
-                # &mut: writes through the reference are not tracked -> forget the referent
                 if '*' not in projs:
-                    env[loc] = write_proj(env.get(loc, TOP), projs, TOP) if projs else TOP
-                return R(TOP) if not ground(v) else R(v)
+                    return MR(depth, loc, tuple(tuple(p) if isinstance(p, list) else p for p in projs), v)
+                # reborrow through an existing reference: hand on the same mutable reference
+                k = projs.index('*')
+                base = read_proj(env.get(loc, TOP), projs[:k])
+                if isinstance(base, MR):
+                    rest = projs[k + 1:]
+                    if not rest:
+                        return base
+                    return MR(base.frame, base.loc, base.projs + tuple(tuple(p) if isinstance(p, list) else p for p in rest), v)
+                return R(v)
             return R(v)
         if k == 'rawptr':
             return TOP
@@ -606,7 +637,7 @@ class Explorer:
             stack.append((t[1], 0, env, events, dsrc, visits))
         elif k == 'ret':
             obs = tuple((n, env.get(i, TOP)) for i, n in sorted(names.items()) if n in self.observe)
-            results[Outcome(env.get(0, T(())), events, obs)] = 1
+            results[Outcome(env.get(0, T(())), events, obs, tuple(env.get(i + 1, TOP) for i in range(rec['argc'])))] = 1
         elif k == 'switch':
             v = strip(self.operand(env, t[1], depth))
             targets, otherwise = t[2], t[3]
@@ -693,10 +724,23 @@ class Explorer:
         args = [self.operand(env, a, depth) for a in argops]
         dloc, dprojs = dest
 
-        def cont(val, ev):
+        margs = [(i, a) for i, a in enumerate(args) if isinstance(a, MR)]
+
+        def cont(val, ev, final_args=None):
             if target < 0:
                 return
             e2 = dict(env)
+            for i, m in margs:
+                if final_args is not None and i < len(final_args) and isinstance(final_args[i], MR):
+                    nm = MR(m.frame, m.loc, m.projs, final_args[i].v)
+                elif final_args is not None and i < len(final_args) and isinstance(final_args[i], R):
+                    nm = MR(m.frame, m.loc, m.projs, final_args[i].v)
+                else:
+                    nm = MR(m.frame, m.loc, m.projs, TOP)   # callee not analysed: referent unknown afterwards
+                self.sync_mut(e2, nm, depth)
+                for l, v in list(e2.items()):
+                    if isinstance(v, MR) and (v.frame, v.loc, v.projs) == (m.frame, m.loc, m.projs):
+                        e2[l] = nm
             e2[dloc] = write_proj(e2.get(dloc, TOP), dprojs, val) if dprojs else val
             d2 = dict(dsrc)
             d2.pop(dloc, None)
@@ -737,30 +781,48 @@ class Explorer:
                 return
         if self.watch and any(name.startswith(w) or deff.startswith(w) for w in self.watch):
             ev = ev | {('callargs', name, tuple(args))}
-        if name in ('core::option::Option::<T>::or_else', 'core::option::Option::<T>::or',
-                    'core::option::Option::<T>::unwrap_or_else', 'core::option::Option::<T>::unwrap_or') and len(args) == 2:
-            v = strip(args[0])
-            alt = strip(args[1])
-            lazy = name.endswith('_else')
-            unwrap = 'unwrap' in name
-            branches = []
-            if not (isinstance(v, A) and v.name == 'None'):
-                some = v if isinstance(v, A) else A('core::option::Option', 1, 'Some', ((0, TOP),))
-                branches.append('some')
-                cont(read_proj(some, [('f', 0)]) if unwrap else some, ev | {('call', name)})
-            if not (isinstance(v, A) and v.name == 'Some'):
-                if not lazy:
-                    cont(args[1], ev | {('call', name)})
-                elif isinstance(alt, C) and self.facts.fn(alt.deff) is not None and depth < self.inline_depth + 2:
-                    self._inline(self.facts.fn(alt.deff), [args[1]], ev | {('call', name)}, cont, depth, alt.deff)
-                elif isinstance(alt, F) and self.facts.fn(alt.res or alt.deff) is not None and depth < self.inline_depth + 2:
-                    self._inline(self.facts.fn(alt.res or alt.deff), [], ev | {('call', name)}, cont, depth, alt.res or alt.deff)
+        # std::mem::{take, replace, swap} on tracked mutable references
+        if name in ('core::mem::take', 'core::mem::replace', 'core::mem::swap') and isinstance(args[0], (MR, R)):
+            m = args[0]
+            oldv = m.v
+            if name == 'core::mem::take':
+                newv = TOP
+                ga = fd.get('ga', '') or ''
+                ty = ga.strip('[]')
+                base = ty.split('<', 1)[0]
+                drec = self.facts.fn('<%s as core::default::Default>::default' % ty) or \
+                    self.facts.fn('<%s<T> as core::default::Default>::default' % base)
+                if drec is not None:
+                    try:
+                        outs = self.run(drec, [], depth + 1)
+                        vals = set(o.ret for o in outs)
+                        if len(vals) == 1:
+                            newv = vals.pop()
+                    except Undecidable:
+                        pass
+                fin = (MR(m.frame, m.loc, m.projs, newv) if isinstance(m, MR) else R(newv),)
+                cont(oldv, ev | {('call', name)}, fin)
+            elif name == 'core::mem::replace':
+                fin = (MR(m.frame, m.loc, m.projs, args[1]) if isinstance(m, MR) else R(args[1]), args[1])
+                cont(oldv, ev | {('call', name)}, fin)
+            else:
+                o = args[1]
+                if isinstance(o, (MR, R)):
+                    f0 = MR(m.frame, m.loc, m.projs, o.v) if isinstance(m, MR) else R(o.v)
+                    f1 = MR(o.frame, o.loc, o.projs, oldv) if isinstance(o, MR) else R(oldv)
+                    cont(T(()), ev | {('call', name)}, (f0, f1))
                 else:
-                    cont(TOP, ev | {('call', name), ('callparam', 'or_else')})
+                    cont(T(()), ev | {('call', name)})
+            return
+        ct = self.is_ctor(name)
+        if ct:
+            cont(A(ct[0], ct[1], ct[2], tuple(enumerate(args))), ev | {('agg', ct[0], ct[2])}, tuple(args))
+            return
+        if self.hof(name, args, ev | {('call', name)}, cont, depth):
             return
         m = self.model_call(fd, args, depth)
         if m is not None:
-            cont(m, ev | {('call', name)})
+            cont(m, ev | {('call', name)}, tuple(args))
             return
         crec = self.facts.fn(name) if fd.get('local') or self.facts.fn(name) is not None else None
         inl = crec is not None and depth < self.inline_depth and not any(name.startswith(p) or name == p for p in self.no_inline)
@@ -773,6 +835,164 @@ class Explorer:
             return
         cont(TOP, ev | {('call', name)})
 
+
+    OPT = 'core::option::Option'
+    RES = 'core::result::Result'
+
+    def is_ctor(self, deff):
+        """(adt, vi, name) if deff names an enum-variant / tuple-struct constructor"""
+        if not deff or '::' not in deff:
+            return None
+        parent, last = deff.rsplit('::', 1)
+        vn = variant_names(self.facts, parent)
+        if vn and last in vn:
+            return (parent, vn.index(last), last)
+        return None
+
+    def apply_callable(self, fv, argvals, ev, k, depth):
+        """call abstract callable fv with argvals; k(val, ev) per outcome"""
+        f = strip(fv)
+        if isinstance(f, C):
+            crec = self.facts.fn(f.deff)
+            if crec is not None and depth < self.inline_depth + 2:
+                try:
+                    outs = self.run(crec, [fv] + list(argvals), depth + 1)
+                except Undecidable:
+                    k(TOP, ev | {('opaque', f.deff)})
+                    return
+                for o in outs:
+                    k(o.ret, ev | o.events | {('call', f.deff)})
+                return
+        if isinstance(f, F):
+            ct = self.is_ctor(f.res or f.deff) or self.is_ctor(f.deff)
+            if ct:
+                k(A(ct[0], ct[1], ct[2], tuple(enumerate(argvals))), ev | {('agg', ct[0], ct[2])})
+                return
+            name = f.res or f.deff
+            m = self.model_call({'def': f.deff, 'res': f.res, 'ga': f.ga}, list(argvals), depth)
+            if m is not None:
+                k(m, ev | {('call', name)})
+                return
+            crec = self.facts.fn(name)
+            if crec is not None and depth < self.inline_depth + 2 and not crec.get('coroutine'):
+                try:
+                    outs = self.run(crec, list(argvals), depth + 1)
+                except Undecidable:
+                    k(TOP, ev | {('opaque', name)})
+                    return
+                for o in outs:
+                    k(o.ret, ev | o.events | {('call', name)})
+                return
+            k(TOP, ev | {('call', name)})
+            return
+        k(TOP, ev | {('callparam', 'hof')})
+
+    def hof(self, name, args, ev, cont, depth):
+        """Option / Result combinators taking callables; forks over the receiver's variant"""
+        if name.startswith('core::option::Option::<T>::'):
+            kind, meth = 'opt', name[len('core::option::Option::<T>::'):]
+        elif name.startswith('core::result::Result::<T, E>::'):
+            kind, meth = 'res', name[len('core::result::Result::<T, E>::'):]
+        else:
+            return False
+        METHS = ('map', 'and_then', 'or_else', 'or', 'unwrap_or', 'unwrap_or_else', 'map_or', 'map_or_else',
+                 'ok_or', 'ok_or_else', 'ok', 'err', 'map_err', 'is_some_and', 'is_ok_and', 'unwrap', 'expect',
+                 'unwrap_or_default', 'is_none_or')
+        if meth not in METHS:
+            return False
+        v = strip(args[0])
+        posname, negname = ('Some', 'None') if kind == 'opt' else ('Ok', 'Err')
+        adt = self.OPT if kind == 'opt' else self.RES
+        cases = []
+        if isinstance(v, A) and v.adt == adt:
+            cases = [v]
+        else:
+            pos = A(adt, 1 if kind == 'opt' else 0, posname, ((0, TOP),))
+            neg = A(adt, 0, 'None', ()) if kind == 'opt' else A(adt, 1, 'Err', ((0, TOP),))
+            cases = [pos, neg]
+        none = A(self.OPT, 0, 'None', ())
+
+        def some(x):
+            return A(self.OPT, 1, 'Some', ((0, x),))
+
+        def okv(x):
+            return A(self.RES, 0, 'Ok', ((0, x),))
+
+        def errv(x):
+            return A(self.RES, 1, 'Err', ((0, x),))
+        for c in cases:
+            ispos = c.name == posname
+            x = read_proj(c, [('f', 0)]) if (ispos or kind == 'res') else None
+            negargs = [] if kind == 'opt' else [x]
+            wrap = some if kind == 'opt' else okv
+            if meth == 'map':
+                if ispos:
+                    self.apply_callable(args[1], [x], ev, lambda val, e: cont(wrap(val), e), depth)
+                else:
+                    cont(c, ev)
+            elif meth == 'and_then':
+                if ispos:
+                    self.apply_callable(args[1], [x], ev, lambda val, e: cont(val, e), depth)
+                else:
+                    cont(c, ev)
+            elif meth == 'or_else':
+                if ispos:
+                    cont(c, ev)
+                else:
+                    self.apply_callable(args[1], negargs, ev, lambda val, e: cont(val, e), depth)
+            elif meth == 'or':
+                cont(c if ispos else args[1], ev)
+            elif meth == 'unwrap_or':
+                cont(x if ispos else args[1], ev)
+            elif meth == 'unwrap_or_default':
+                cont(x if ispos else TOP, ev)
+            elif meth == 'unwrap_or_else':
+                if ispos:
+                    cont(x, ev)
+                else:
+                    self.apply_callable(args[1], negargs, ev, lambda val, e: cont(val, e), depth)
+            elif meth == 'map_or':
+                if ispos:
+                    self.apply_callable(args[2], [x], ev, lambda val, e: cont(val, e), depth)
+                else:
+                    cont(args[1], ev)
+            elif meth == 'map_or_else':
+                if ispos:
+                    self.apply_callable(args[2], [x], ev, lambda val, e: cont(val, e), depth)
+                else:
+                    self.apply_callable(args[1], negargs, ev, lambda val, e: cont(val, e), depth)
+            elif meth == 'ok_or':
+                cont(okv(x) if ispos else errv(args[1]), ev)
+            elif meth == 'ok_or_else':
+                if ispos:
+                    cont(okv(x), ev)
+                else:
+                    self.apply_callable(args[1], [], ev, lambda val, e: cont(errv(val), e), depth)
+            elif meth == 'ok':
+                cont(some(x) if ispos else none, ev)
+            elif meth == 'err':
+                cont(none if ispos else some(x), ev)
+            elif meth == 'map_err':
+                if ispos:
+                    cont(c, ev)
+                else:
+                    self.apply_callable(args[1], [x], ev, lambda val, e: cont(errv(val), e), depth)
+            elif meth in ('is_some_and', 'is_ok_and'):
+                if ispos:
+                    self.apply_callable(args[1], [x], ev, lambda val, e: cont(val, e), depth)
+                else:
+                    cont(I(0), ev)
+            elif meth == 'is_none_or':
+                if ispos:
+                    self.apply_callable(args[1], [x], ev, lambda val, e: cont(val, e), depth)
+                else:
+                    cont(I(1), ev)
+            elif meth in ('unwrap', 'expect'):
+                if ispos:
+                    cont(x, ev)
+                # neg: panics, no continuation
+        return True
+
     def _inline(self, crec, args, ev, cont, depth, name):
         try:
             outs = self.run(crec, args, depth + 1)
@@ -780,7 +1000,10 @@ class Explorer:
             cont(TOP, ev | {('call', name), ('opaque', name)})
             return
         for o in outs:
-            cont(o.ret, ev | o.events | {('call', name)})
+            if o.args and any(isinstance(a, MR) for a in args):
+                cont(o.ret, ev | o.events | {('call', name)}, o.args)
+            else:
+                cont(o.ret, ev | o.events | {('call', name)})
 
 
 def table(facts, fnpath, domains, **kw):
